@@ -107,9 +107,11 @@ def run_case(case) -> Result:
                 bodies = [R.ping_response(), R.channel_response(7, 9), R.watercare_response(3), R.pack_response(), R.reminders_response([[1, 5]])]
 
                 async def foreign_stream():
+                    # two datagrams per half second (a ping answer + one reply kind in rotation): well below what the packet
+                    # consumer takes per second (one per polling interval), so the receive queue does not build up
                     k_ = 0
                     while True:
-                        for body in bodies:
+                        for body in (bodies[0], bodies[1 + k_ % (len(bodies) - 1)]):
                             W.inject(W.transports[-1], R.frame(FOREIGN_SPA, clients.CLIENT_ID, body), ("10.0.0.77", 10022))
                         k_ += 1
                         await W.sleep(0.5)
@@ -167,7 +169,10 @@ def run_case(case) -> Result:
                     raise InvalidCase(kind)
                 rec["t_return"] = W.clock.t
 
-            damage = {"on": bool(case.get("damage")) and gate == "open" and any(c_[1] == "get" for c_ in case["callers"]), "left": 1, "n": 0}
+            # (not next to cancelled callers or the foreign stream: an undecodable reply that its caller no longer waits for would be
+            # met by a later caller at the head of the queue)
+            damage = {"on": bool(case.get("damage")) and gate == "open" and any(c_[1] == "get" for c_ in case["callers"])
+                      and not case.get("foreign") and not any(len(c_) > 3 and float(c_[3]) > 0 for c_ in case["callers"]), "left": 1, "n": 0}
             if damage["on"]:
                 # the first channel reply arrives with the right verb but a payload the decoder cannot read
                 def dmg(data):
@@ -204,6 +209,8 @@ def run_case(case) -> Result:
                 W.s2c_filter = flt
             for ix, c_ in enumerate(case["callers"]):
                 delay, kind, retry = c_[0], c_[1], c_[2]
+                if kind in ("get", "refresh") and not 1 <= int(retry) <= 10:
+                    raise InvalidCase(c_)      # the retry count of a request is 1..10 (0 would mean "never transmit")
                 cancel_after = float(c_[3]) if len(c_) > 3 else 0.0
                 t = asyncio.ensure_future(one(ix, float(delay), kind, int(retry)))
                 t.set_name(f"VP:{ix}:{kind}")
